@@ -1473,13 +1473,17 @@ def finalize(doc, exclude=()):
             drop.append(nm)
         elif lab.cls == "bullet" and "label-bullet" in X:
             drop.append(nm)
-    taken = set()
+    taken = {}
+    # one label per object (the label *is* the object's id); callers that pass "+multi-label"
+    # (C09) keep a second label on the same object: both keys must resolve to it
+    per_object = 2 if "+multi-label" in X else 1
     for nm in sorted(a.labels, key=lambda n: a.labels[n].order):
         if nm in drop:
             continue
-        if a.labels[nm].obj in taken:
-            drop.append(nm)         # one label per object (the label *is* the object's id)
-        taken.add(a.labels[nm].obj)
+        if taken.get(a.labels[nm].obj, 0) >= per_object:
+            drop.append(nm)
+            continue
+        taken[a.labels[nm].obj] = taken.get(a.labels[nm].obj, 0) + 1
     if drop:
         doc = drop_labels(doc, drop)
         a = analyze(doc)
